@@ -138,6 +138,29 @@ func c52(c *Ctx) {
 			}
 		}
 		c.Expect(nb == 1, nil, inc, "one-byte-increment", "expected one byte increment site")
+		// the carry stops exactly at the first byte that did not wrap to zero
+		nbr := 0
+		for _, b := range inc.Blocks {
+			i, ok := b.Instrs[len(b.Instrs)-1].(*ssa.If)
+			if !ok || !isLoopHeader(b) {
+				continue
+			}
+			if bo, ok := i.Cond.(*ssa.BinOp); !ok || !FieldLoad(fOv)(bo.Y) {
+				continue
+			}
+			for _, p := range breakPreds(b) {
+				nbr++
+				c.EnteredOnlyWhenExcept(b.Succs[1], "carry-stops-only-at-a-byte-that-did-not-wrap", func(q *ssa.BasicBlock) bool { return q != p }, CmpInt(func(v ssa.Value) bool {
+					u, ok := v.(*ssa.UnOp)
+					if !ok {
+						return false
+					}
+					_, isIdx := u.X.(*ssa.IndexAddr)
+					return isIdx
+				}, token.NEQ, 0))
+			}
+		}
+		c.Expect(nbr == 1, nil, inc, "one-carry-stop", "expected exactly one early exit from the carry loop")
 		val := c.fn(altsc, "Counter.Value")
 		for _, r := range returnsOf(val) {
 			if ConstNil(r.Results[1]) {
@@ -205,8 +228,43 @@ func c52(c *Ctx) {
 			if _, isSl := r.Results[0].(*ssa.Slice); isSl {
 				c.Unreachable(r, "over-limit-frame-rejected", Cmp(ln, token.GTR, ParamV("maxLen")))
 				c.MustFact(r, "frame-complete", Cmp(LenOf(ParamV("b")), token.GEQ, AnyV))
+				c.MustFact(r, "frame-only-with-a-complete-length-header", Truth(ExtractOf(CallRes(Callee(altsc, "parseMessageLength"), -1), 1), true))
 			}
 		}
+	})
+	c.Ob("reassembly-moves-the-bytes", "R6", "NewConnWithMaxFrameSize / ReadOnReady: whenever a receive buffer is given the length of another buffer (x = x[:len(src)] — carrying an incomplete frame to the front, growing the buffer, taking over the handshaker's leftover bytes) the bytes of that other buffer were copied into it first in the same block", 3, func() {
+		n := 0
+		for _, fn := range []string{"NewConnWithMaxFrameSize", "conn.ReadOnReady"} {
+			f := c.fn(altsc, fn)
+			for _, b := range f.Blocks {
+				for i, in := range b.Instrs {
+					sl, ok := in.(*ssa.Slice)
+					if !ok || sl.Low != nil || sl.High == nil {
+						continue
+					}
+					lc := builtinCall(sl.High, "len")
+					if lc == nil {
+						continue
+					}
+					src := lc.Call.Args[0]
+					same := func(a, b ssa.Value) bool { return a == b || sameFieldOfSameBase(a, b) }
+					if same(src, sl.X) {
+						continue
+					}
+					n++
+					c.inst("relocation <- " + c.siteStr(in))
+					okCopy := false
+					for _, prev := range b.Instrs[:i] {
+						call, ok := prev.(*ssa.Call)
+						if ok && BuiltinCall("copy")(&call.Call) && call.Call.Args[0] == sl.X && same(call.Call.Args[1], src) {
+							okCopy = true
+						}
+					}
+					c.Expect(okCopy, in, f, fn+":bytes-copied-before-the-length-is-taken-over", "a buffer takes over the length of another buffer without its bytes having been copied (received ciphertext is lost or replaced by stale bytes)")
+				}
+			}
+		}
+		c.Expect(n >= 3, nil, nil, "relocation-sites", "fewer buffer relocation sites than the 3 confirmed by reading")
 	})
 	c.Ob("error-discipline", "R2", "Write, ReadOnReady and the connection constructor never continue past a failing helper (encryption, decryption, frame parsing, network read/write) to a success return", 8, func() {
 		n := 0
@@ -226,6 +284,10 @@ func c52(c *Ctx) {
 				sl, ok := v.(*ssa.Slice) // msg = framedMsg[MsgLenFieldSize:]
 				return ok && sl.Low != nil && ConstInt(4)(sl.Low) && sl.High == nil
 			}), token.LSS, 4))
+			c.MustFact(d, "decrypt-only-a-complete-frame", CmpInt(LenOf(func(v ssa.Value) bool {
+				_, isPhi := v.(*ssa.Phi)
+				return isPhi && DataDep(ExtractOf(CallRes(Callee(altsc, "ParseFramedMsg"), -1), 0))(v)
+			}), token.NEQ, 0))
 			c.MustFact(d, "message-type-checked", Cmp(BinOpV(token.AND, CallRes(CalleeX("encoding/binary", "littleEndian.Uint32"), 0), ConstInt(255)), token.EQL, ConstInt(6)))
 			// decrypting straight into the caller's buffer needs room for the whole record:
 			// the destination is (*buf)[:0] of a buffer of bufSize bytes
